@@ -1,6 +1,9 @@
 /* C15 harness: drives aws_ring_buffer through an op file; releases can be injected between the
  * acquirer's tail load and head load through the schedule-point callback (verif_atomics.h).
  *
+ *   initbig <n>: like init, but the storage comes from an allocator that only RESERVES address space (mmap PROT_NONE,
+ *                MAP_NORESERVE) and is never touched - the ring itself never reads or writes its storage - so rings of
+ *                2^32 bytes and more can be driven; prints `P big-unavailable` (and ignores the case) if the mapping fails
  *   init <n> | acq <k> <p> <size> [live<j>] | upto <k> <p> <min> <size> [live<j>] | rel
  *
  * *dest of every acquire is pre-filled: with a sentinel, or (live<j>, only without injected releases) it IS the caller's
@@ -13,6 +16,13 @@
 #include <aws/common/ring_buffer.h>
 #include <stdlib.h>
 #include <string.h>
+#include <sys/mman.h>
+#ifndef MAP_ANONYMOUS
+#    define MAP_ANONYMOUS 0x20 /* Linux; hidden by _POSIX_C_SOURCE */
+#endif
+#ifndef MAP_NORESERVE
+#    define MAP_NORESERVE 0x4000
+#endif
 
 #define MAXOUT 4096
 static struct aws_ring_buffer s_ring;
@@ -26,6 +36,23 @@ static int s_inject_at;               /* 0 = before the first atomic access, 1 =
 static int s_point;                   /* atomic accesses seen so far in the current call */
 static bool s_in_call;
 static char s_ev[64];                 /* sequence of atomic accesses of the current call, e.g. "LtLhSh" */
+
+/* ---- reserve-only allocator for rings of 4 GiB and more ---- */
+static bool s_big;         /* the current ring's storage is reserved address space: never touch it */
+static void *s_big_block;  /* the reservation made for the next mem_acquire */
+static size_t s_big_size;
+static void *s_big_acquire(struct aws_allocator *a, size_t size) {
+    (void)a;
+    HC_CHECK(s_big_block && size == s_big_size);
+    return s_big_block;
+}
+static void s_big_release(struct aws_allocator *a, void *p) {
+    (void)a;
+    HC_CHECK(p == s_big_block);
+    munmap(s_big_block, s_big_size);
+    s_big_block = NULL;
+}
+static struct aws_allocator s_big_allocator = {.mem_acquire = s_big_acquire, .mem_release = s_big_release};
 
 static void s_release_oldest(void) {
     if (s_tail_idx < s_head_idx) {
@@ -90,6 +117,7 @@ static void s_reset(void) {
         }
     }
     s_have = false;
+    s_big = false;
     s_head_idx = s_tail_idx = 0;
     s_inject = 0;
     s_in_call = false;
@@ -149,7 +177,7 @@ static void s_after_acquire(int rc, struct aws_byte_buf *dest, const struct aws_
         if (!inside || overlap || dest->len != 0) {
             printf("P MONITOR inside=%d overlap=%d len=%zu\n", inside, overlap, dest->len);
         }
-        if (inside) {
+        if (inside && !s_big) {
             memset(dest->buffer, 0xA5, dest->capacity); /* ASan: whole buffer writable */
         }
         /* the library's own "inside the ring" predicate: the granted buffer, a foreign one, one straddling the end */
@@ -185,6 +213,19 @@ int main(void) {
             HC_CHECK(aws_ring_buffer_init(&s_ring, hc_allocator(), hc_parse_size(t[1])) == AWS_OP_SUCCESS);
             s_have = true;
             s_print_valid();
+        } else if (!strcmp(t[0], "initbig") && n == 2) {
+            s_reset();
+            s_big_size = hc_parse_size(t[1]);
+            s_big_block = mmap(NULL, s_big_size, PROT_NONE, MAP_PRIVATE | MAP_ANONYMOUS | MAP_NORESERVE, -1, 0);
+            if (s_big_block == MAP_FAILED) {
+                s_big_block = NULL;
+                printf("P big-unavailable\n");
+            } else {
+                HC_CHECK(aws_ring_buffer_init(&s_ring, &s_big_allocator, s_big_size) == AWS_OP_SUCCESS);
+                s_have = true;
+                s_big = true;
+                s_print_valid();
+            }
         } else if (!s_have) {
             printf("bad-op\n");
         } else if (!strcmp(t[0], "acq") && (n == 4 || (n == 5 && !strncmp(t[4], "live", 4)))) {
